@@ -19,6 +19,7 @@ CONSTANTS
   Bug_DeletePinned = FALSE
   Bug_ImmDropEarly = FALSE
   Bug_FlushDeepDuringCompaction = FALSE
+  Bug_ExpandKeepsParents = FALSE
 INVARIANTS ReadCorrect WellFormed NothingLiveDeleted SeqSane
 CONSTRAINT MCBound
 VIEW MCView
